@@ -229,6 +229,7 @@ func genAmount(r *Rng) *big.Int {
 }
 
 type HistProfile struct {
+	OddKeys       bool // C17: metadata keys that a URL path or query decoder could mangle ("a+b")
 	MaxOps        int
 	AllowPanic    bool
 	Backdate      bool
@@ -251,6 +252,9 @@ func genMeta(r *Rng, p HistProfile) []KV {
 	var out []KV
 	for i := 0; i < n; i++ {
 		k := Pick(r, []string{"k1", "k2", "role"})
+		if p.OddKeys && k == "k2" {
+			k = "a+b"
+		}
 		if seen[k] {
 			continue
 		}
@@ -469,11 +473,17 @@ func genHistory(r *Rng, p HistProfile, feat Feat, exec func(Op) OpResult) []Op {
 				o.TxID = Pick(r, futTx)
 			}
 			o.Key = Pick(r, []string{"k1", "k2", "role"})
+			if p.OddKeys && o.Key == "k2" {
+				o.Key = "a+b"
+			}
 		case k < 95:
 			o.Kind = "delmeta"
 			o.IsAcc = true
 			o.TgtAcc = Pick(r, genAccounts)
 			o.Key = Pick(r, []string{"k1", "k2", "role"})
+			if p.OddKeys && o.Key == "k2" {
+				o.Key = "a+b"
+			}
 		default: // replay an earlier operation under its idempotency key (same or altered input)
 			if len(ops) == 0 {
 				i--
@@ -484,6 +494,9 @@ func genHistory(r *Rng, p HistProfile, feat Feat, exec func(Op) OpResult) []Op {
 				i--
 				now -= 1000000
 				continue
+			}
+			if p.IKHeavy && r.Chance(25) { // the same request replayed as a dry run (or a dry run replayed for real)
+				o.Dry = !o.Dry
 			}
 			if r.Chance(30) {
 				o.Force = !o.Force
